@@ -38,4 +38,14 @@ with open(os.path.join(VERIF, "seeded", "RESULTS.md"), "w") as f:
     n = len(rows)
     d = len([r for r in rows if not r[3].startswith("NOT") and not r[3].startswith("not swept")])
     f.write("\n%d of %d seeded changes detected by the quick check of the property they break.\n" % (d, n))
+# the same table, compact, into DESIGN.md between the SEEDTABLE markers
+dp = os.path.join(VERIF, "DESIGN.md")
+ds = open(dp).read()
+a, b = ds.find("<!-- SEEDTABLE -->"), ds.find("<!-- /SEEDTABLE -->")
+if a >= 0 and b > a:
+    tab = "| seeded change | needs | caught by (quick tier, seed 1) |\n|---|---|---|\n"
+    for sid, brk, needs, det in rows:
+        tab += "| %s | %s | %s |\n" % (sid, needs[:150], det)
+    tab += "\n%d of %d detected by the quick check of the property they break.\n" % (d, n)
+    open(dp, "w").write(ds[:a] + "<!-- SEEDTABLE -->\n" + tab + ds[b:])
 print(open(os.path.join(VERIF, "seeded", "RESULTS.md")).read()[-300:])
